@@ -5,7 +5,10 @@ from .progen import Program
 
 KINDS = ['vector', 'string', 'deque', 'list', 'set']
 
-EXCLUSIONS = {}
+EXCLUSIONS = {
+    'set-insert-fresh': 'every value inserted into a std::set is fresh (taken from a program-wide counter), never an '
+                        'element that may already be present [finding set-insert-existing]',
+}
 
 
 class B:
@@ -115,7 +118,7 @@ class Gen:
         b = self.b
         if op == 'push':
             if kind == 'set':
-                b.line(indent, [C(name), '.insert(%s);' % self.elem(kind)])
+                b.line(indent, [C(name), '.insert(1000 + fresh++);'])   # exclusion set-insert-fresh
             else:
                 b.line(indent, [C(name), '.push_back(%s);' % self.elem(kind)])
         elif op == 'push-front':
@@ -208,6 +211,7 @@ class Gen:
         for h in ['vector', 'string', 'deque', 'list', 'set']:
             b.raw('#include <%s>' % h)
         b.raw('static long sink = 0;')
+        b.raw('static int fresh = 0;')
         for kind in KINDS:
             T = typ(kind)
             b.raw('static long ro_%s(const %s &c) {' % (kind, T))
@@ -215,7 +219,7 @@ class Gen:
             b.raw('}')
             b.raw('static long rw_%s(%s &c) {' % (kind, T))
             if kind == 'set':
-                b.line(1, [C('c'), '.insert(42);'])
+                b.line(1, [C('c'), '.insert(1000 + fresh++);'])
             elif kind == 'string':
                 b.line(1, [C('c'), " += 'z';"])
             else:
